@@ -74,7 +74,7 @@ def _tsan_confirm(ck, orig):
                 return "diverged"
             if key not in [f["key"] for f in r["fails"]]:
                 # one more attempt with twice the iterations before giving up
-                rc, r = ck.replay_once(cmd + ["--iters=1000"])
+                rc, r = ck.replay_once([cmd[0], "--iters=1000"] + cmd[1:])      # vx_opt takes the first match
                 if r is None or key not in [f["key"] for f in r["fails"]]:
                     return "not-reproduced"
         return "confirmed"
@@ -86,14 +86,21 @@ def run(ck):
     exe, free, hb = exes["h_c19"], exes["h_c19_free"], exes["h_c19_hb"]
     ck.confirm = _tsan_confirm(ck, ck.confirm)
     if ck.tier == "quick":
-        P, dl, iters, el_ms = 2, 150, 300, 12000
+        dl, iters, el_ms = 150, 300, 12000
+        ck.explore(exe, ["--body=1", "--waits=3"], "post", budget=2, deadline_s=dl)
+        ck.explore(exe, ["--body=2"], "queue", budget=2, deadline_s=dl)
+        ck.explore(exe, ["--body=3"], "worker", budget=3, deadline_s=dl)
+        ck.explore(exe, ["--body=4"], "timer", budget=3, deadline_s=dl)
+        ck.explore(exe, ["--body=5", "--waits=6"], "console", budget=2, deadline_s=dl)
     else:
-        P, dl, iters, el_ms = 3, 1500, 1000, 40000
-    ck.explore(exe, ["--body=1", "--waits=3"], "post", budget=P, deadline_s=dl)
-    ck.explore(exe, ["--body=2"], "queue", budget=P, deadline_s=dl)
-    ck.explore(exe, ["--body=3"], "worker", budget=P + 1, deadline_s=dl)
-    ck.explore(exe, ["--body=4"], "timer", budget=P + 1, deadline_s=dl)
-    ck.explore(exe, ["--body=5", "--waits=%d" % (P + 4)], "console", budget=P, deadline_s=dl)
+        # bound 3 everywhere (DESIGN), and one more where it is cheap
+        dl, iters, el_ms = 1500, 1000, 40000
+        ck.explore(exe, ["--body=1", "--waits=3"], "post", budget=4, deadline_s=dl)
+        ck.explore(exe, ["--body=2", "--vmask=3"], "queue-fail-drop", budget=4, deadline_s=dl)
+        ck.explore(exe, ["--body=2", "--vmask=4"], "queue-block", budget=3, deadline_s=dl)
+        ck.explore(exe, ["--body=3"], "worker", budget=5, deadline_s=dl)
+        ck.explore(exe, ["--body=4"], "timer", budget=5, deadline_s=dl)
+        ck.explore(exe, ["--body=5", "--waits=8"], "console", budget=4, deadline_s=dl)
     sched_parts = list(ck.parts)
     ck.enum(free, ["--iters=%d" % iters], "tsan", batch=1, deadline_s=dl, timeout_ms=el_ms, rotate=0)
     tsan = ck.parts[-1] if len(ck.parts) > len(sched_parts) else {}
@@ -120,19 +127,23 @@ def selftest(ck):
     and the scheduler must find a deadlock that needs exactly one preemption (and not find it with none)"""
     exe = build(ck)["h_c19"]
     bad = 0
-    cases = [("abba-p0", ["--body=9"], 0, False), ("abba-p1", ["--body=9"], 1, True),
-             ("post-model", ["--body=1", "--waits=3", "--vmask=16", "--selftest=1"], 0, True),
-             ("queue-obs", ["--body=2", "--vmask=1", "--selftest=2"], 0, True),
-             ("worker-obs", ["--body=3", "--vmask=1", "--selftest=3"], 0, True),
-             ("timer-obs", ["--body=4", "--vmask=1", "--selftest=4"], 0, True),
-             ("console-obs", ["--body=5", "--vmask=1", "--waits=5", "--selftest=5"], 0, True)]
+    # (tag, harness args, preemption bound, finding key that must / must not appear)
+    cases = [("abba-p0", ["--body=9"], 0, None),
+             ("abba-p1", ["--body=9"], 1, "C19:abba:deadlock:main-in-lock-A-then-B"),
+             ("post-model", ["--body=1", "--waits=3", "--vmask=16", "--selftest=1"], 0, "C19:post:completion-lost"),
+             ("queue-obs", ["--body=2", "--vmask=1", "--selftest=2"], 0, "C19:queue:not-linearizable"),
+             ("worker-obs", ["--body=3", "--vmask=1", "--selftest=3"], 0, "C19:worker:callback-after-join"),
+             ("timer-obs", ["--body=4", "--vmask=1", "--selftest=4"], 0, "C19:timer:callback-after-stop"),
+             ("console-obs", ["--body=5", "--vmask=1", "--waits=5", "--selftest=5"], 0, "C19:console:line-lost")]
     for tag, args, budget, want in cases:
         ck2 = vlib.Check("C19", "quick", 0, LEVEL)
         ck2.explore(exe, args, "selftest-" + tag, budget=budget, jobs=8)
         if ck2.broken:
             print("SELFTEST-FAILED C19 %s: %s" % (tag, ck2.broken)); bad = 1
-        elif bool(ck2.fails) != want:
-            print("SELFTEST-FAILED C19 %s: expected %s, got %s" % (tag, "a violation" if want else "no violation", sorted(ck2.fails))); bad = 1
+        elif want is None and ck2.fails:
+            print("SELFTEST-FAILED C19 %s: expected no violation, got %s" % (tag, sorted(ck2.fails))); bad = 1
+        elif want is not None and want not in ck2.fails:
+            print("SELFTEST-FAILED C19 %s: expected %s, got %s" % (tag, want, sorted(ck2.fails))); bad = 1
         else:
-            print("selftest %s ok: %s" % (tag, sorted(ck2.fails)[:3]))
+            print("selftest %s ok: %s" % (tag, want or "no violation with 0 preemptions"))
     return bad
